@@ -73,7 +73,9 @@ def oracle(c, op, out, before, after, metrics_before):
                 continue
             if s.title != parts[-1]:
                 fails.append(f"table-title: add_table({key!r}) heading is {s.title!r}, last path part is {parts[-1]!r}")
-            want = with_desc(op["description"] or "", wrap(token([(colstr(col), [cellstr(v) for v in vs]) for col, vs in tbl]), op["folded"]))
+            from ..card import table_values
+
+            want = with_desc(op["description"] or "", wrap(token([(colstr(col), [cellstr(v) for v in vs]) for col, vs in table_values(tbl)]), op["folded"]))
             if s.format() != want:
                 fails.append(f"table-cells: add_table({key!r}, as_df={op.get('as_df')}) renders {s.format()!r}, expected {want!r}")
     if name == "add_plot":
@@ -205,10 +207,31 @@ def prettytable_stream(ctx):
     return dict(evaluations=evals, oracle_fails=fails)
 
 
+def _m(**kw):
+    return dict(op="card.add_metrics", section="Metrics", description=None, items=[[k, v] for k, v in kw.items()])
+
+
+def _t(key, cols):
+    return dict(op="card.add_table", description=None, folded=False, as_df=False, items=[[key, cols]])
+
+
+_NEW, _RENDER = dict(op="card.new"), dict(op="card.render")
+SCENARIOS = [
+    # a metric reported again with a value that compares equal but prints differently: the latest value is shown
+    [_NEW, _m(acc=1), _m(acc=1.0), dict(op="card.select", key="Metrics"), _m(acc=True), dict(op="card.select", key="Metrics"), _RENDER],
+    [_NEW, _m(z=0.0, a=0), _m(z=-0.0), dict(op="card.select", key="Metrics"), _m(a=False, z=0), dict(op="card.select", key="Metrics")],
+    [_NEW, _m(f1="1"), _m(f1=1), _m(f1=1.0), dict(op="card.select", key="Metrics")],
+    # numpy columns: a cell is the text of the element, whatever container the column came in
+    [_NEW, _t("T", [["f32:a", [0.1, 2.5]], ["masked:b", [1, 2.5]]]), dict(op="card.select", key="T"), _t("U", [["i8:n", [1, 3]], ["f16:h", [0.1, 1e-3]]]),
+     dict(op="card.select", key="U"), _RENDER],
+]
+
+
 def run(ctx):
     cardcheck.run_card_property(ctx, area="card.builders", required=REQUIRED, weights=WEIGHTS, view=view,
                                 oracle=oracle, quick=(250, 25), thorough=(8000, 50),
-                                extra_streams={"multi_vs_single": multi_stream, "real_prettytable": prettytable_stream})
+                                extra_streams={"multi_vs_single": multi_stream, "real_prettytable": prettytable_stream},
+                                scenarios=SCENARIOS)
 
 
 def replay(rep):
